@@ -523,8 +523,8 @@ func c01R5(c *Ctx, r *Report, rule string) {
 						if strings.HasSuffix(e.What, ".buf") && strings.HasPrefix(e.What, "new ") {
 							if w.l != w.o {
 								problems = append(problems, "the new connection receives the buffer ("+e.Args[0]+") although "+fmt.Sprint(w.l-w.o)+" byte(s) are still unread in the receiver, which the wrapped conn also reads through: bytes delivered twice")
-							} else if e.Args[0] != "recv.buf[:0]" {
-								problems = append(problems, "a drained buffer may be reused only with length 0 (recv.buf[:0]), got "+e.Args[0])
+							} else if hv := p.Heap[e.What]; !(hv.Len != nil && hv.Len.Known && hv.Len.N == 0) {
+								problems = append(problems, "a drained buffer may be reused only with length 0, got "+e.Args[0])
 							}
 						}
 						if strings.HasSuffix(e.What, ".offset") && strings.HasPrefix(e.What, "new ") && e.Args[0] != "0" {
